@@ -7,6 +7,7 @@ import (
 	"math/rand"
 	"path/filepath"
 	"strconv"
+	"strings"
 	"sync"
 	"time"
 
@@ -1533,6 +1534,9 @@ func (p *partition) sendAck(ack *client.Ack) {
 		return
 	}
 	ack.CommitTimestamp = timestamp()
+	// A NATS subject is not necessarily valid UTF-8, which a string field of
+	// the ack has to be.
+	ack.MsgSubject = strings.ToValidUTF8(ack.MsgSubject, "\uFFFD")
 	data, err := proto.MarshalAck(ack)
 	if err != nil {
 		panic(err)
@@ -1567,7 +1571,7 @@ func (p *partition) sendTooLargeNack(msg *commitlog.Message) {
 	ack := &client.Ack{
 		Stream:             p.Stream,
 		PartitionSubject:   p.Subject,
-		MsgSubject:         string(msg.Headers["subject"]),
+		MsgSubject:         strings.ToValidUTF8(string(msg.Headers["subject"]), "\uFFFD"),
 		AckInbox:           msg.AckInbox,
 		CorrelationId:      msg.CorrelationID,
 		AckPolicy:          msg.AckPolicy,
